@@ -105,7 +105,14 @@ func (t *Ticket) Unmarshal(b []byte) error {
 
 // Marshal the Ticket.
 func (t *Ticket) Marshal() ([]byte, error) {
-	b, err := asn1.Marshal(*t)
+	// The DecryptedEncPart is not part of the ASN1 encoding of a Ticket and must never be sent in the clear.
+	tk := Ticket{
+		TktVNO:  t.TktVNO,
+		Realm:   t.Realm,
+		SName:   t.SName,
+		EncPart: t.EncPart,
+	}
+	b, err := asn1.Marshal(tk)
 	if err != nil {
 		return nil, err
 	}
